@@ -28,7 +28,7 @@ def run(ctx):
     p = ctx.run_harness(["readlevels-replay", "-in", inp, "-out", outp, "-dir", ctx.sub("rl")], timeout=900)
     st = json.loads(p.stdout.strip().splitlines()[-1])
     rows = vlib.read_nd(outp)
-    if st["stale_cases"] < 4000 or st["dispatch_cases"] < 60:
+    if st["stale_cases"] < 4000 or st["dispatch_cases"] < 50:
         raise vlib.Undecided("replay covered too little: %s" % st)
     for r in rows:
         if r["ok"]:
